@@ -3,6 +3,242 @@
 -/
 import BumpverVerif.Model.V2Version
 import BumpverVerif.Proofs.Digits
+import BumpverVerif.Proofs.V2Lemmas
+import BumpverVerif.Proofs.CalendarLemmas
 namespace BV
+
+/- `Re` carries no `DecidableEq` in the model (it is not needed by the driver); the closed shape
+   obligations of Props/C02.lean compare parsed regexes by kernel evaluation -/
+deriving instance DecidableEq for Re
+
+/-! ### the two character classes `[0-9]` and `[1-9]` -/
+
+/-- `[0-9]` as `parseRe` builds it -/
+def digitCls : Re := .cls false [.range '0' '9']
+
+/-- `[1-9]` as `parseRe` builds it -/
+def posDigitCls : Re := .cls false [.range '1' '9']
+
+theorem range09_matches (c : Char) : (ClsItem.range '0' '9').matches c = isDigit c := rfl
+
+theorem digitCls_m_cons (st : MSt) (c : Char) (r : Str) (hr : st.rest = c :: r)
+    (hc : isDigit c = true) : digitCls.m st = [st.step r] := by
+  simp only [digitCls, Re.m, hr, List.any_cons, List.any_nil, Bool.or_false, range09_matches, hc]
+  rfl
+
+theorem digitCls_m_noDigit (st : MSt) (h : ∀ c, st.rest.head? = some c → isDigit c = false) :
+    digitCls.m st = [] := by
+  cases hr : st.rest with
+  | nil => simp only [digitCls, Re.m, hr]
+  | cons c r =>
+    have hc := h c (by rw [hr]; rfl)
+    simp only [digitCls, Re.m, hr, List.any_cons, List.any_nil, Bool.or_false, range09_matches, hc]
+    rfl
+
+theorem posDigit_of_ne_zero (c : Char) (hc : isDigit c = true) (h0 : c ≠ '0') :
+    (ClsItem.range '1' '9').matches c = true := by
+  rw [isDigit_iff] at hc
+  have hne : c.toNat ≠ 48 := by
+    intro e
+    apply h0
+    apply Char.toNat_inj.mp
+    rw [e]; rfl
+  simp only [ClsItem.matches, Bool.and_eq_true, decide_eq_true_eq, Char.le_def]
+  show 49 ≤ c.toNat ∧ c.toNat ≤ 57
+  omega
+
+theorem posDigitCls_m_cons (st : MSt) (c : Char) (r : Str) (hr : st.rest = c :: r)
+    (hc : isDigit c = true) (h0 : c ≠ '0') : posDigitCls.m st = [st.step r] := by
+  simp only [posDigitCls, Re.m, hr, List.any_cons, List.any_nil, Bool.or_false,
+    posDigit_of_ne_zero c hc h0]
+  rfl
+
+/-! ### maximal munch: `[0-9]*` / `[0-9]+` consume the whole digit run -/
+
+/-- greedy `[0-9]{min,}` on a digit run `ds` followed by a non-digit continuation: the FIRST
+    result (what `re.match` reports) has consumed exactly `ds` -/
+theorem mRep_digits_head (rest : Str) (hrest : ∀ c, rest.head? = some c → isDigit c = false) :
+    ∀ (ds : Str), allDigits ds = true → ∀ (fuel min : Nat) (st : MSt),
+      ds.length ≤ fuel → min ≤ ds.length → st.rest = ds ++ rest →
+      ∃ st' tl, mRep digitCls.m fuel min none st = st' :: tl ∧ st'.rest = rest ∧ st'.caps = st.caps := by
+  intro ds
+  induction ds with
+  | nil =>
+    intro _ fuel min st _ hmin hst
+    have hmin0 : min = 0 := by simpa using hmin
+    subst hmin0
+    have hst' : st.rest = rest := by simpa using hst
+    cases fuel with
+    | zero => exact ⟨st, [], by simp [mRep], hst', rfl⟩
+    | succ f =>
+      refine ⟨st, [], ?_, hst', rfl⟩
+      have hno : digitCls.m st = [] := digitCls_m_noDigit st (by rw [hst']; exact hrest)
+      simp [mRep, hno]
+  | cons d ds ih =>
+    intro hd fuel min st hfuel hmin hst
+    rw [allDigits_cons] at hd
+    cases fuel with
+    | zero => simp at hfuel
+    | succ f =>
+      have hst' : st.rest = d :: (ds ++ rest) := by simpa using hst
+      have hstep : digitCls.m st = [st.step (ds ++ rest)] := digitCls_m_cons st d _ hst' hd.1
+      obtain ⟨st', tl, hm, hr, hc⟩ := ih hd.2 f (min - 1) (st.step (ds ++ rest))
+        (by simpa using hfuel) (by simp at hmin; omega) rfl
+      refine ⟨st', tl ++ (if (min == 0) = true then [st] else []), ?_, hr, hc⟩
+      have hlt : (st.step (ds ++ rest)).rest.length < st.rest.length := by
+        rw [hst']; simp [MSt.step]
+      simp only [mRep, hstep, List.filter_cons, List.filter_nil, hlt, decide_true, ↓reduceIte,
+        List.flatMap_cons, List.flatMap_nil, List.append_nil, Option.map_none, hm]
+      simp
+
+/-- `[0-9]{k}` with `k` = length of the digit run `ds`: exactly `ds` is consumed, WHATEVER follows -/
+theorem mRep_digits_exact (rest : Str) :
+    ∀ (ds : Str), allDigits ds = true → ∀ (fuel : Nat) (st : MSt),
+      ds.length ≤ fuel → st.rest = ds ++ rest →
+      ∃ st' tl, mRep digitCls.m fuel ds.length (some ds.length) st = st' :: tl ∧
+        st'.rest = rest ∧ st'.caps = st.caps := by
+  intro ds
+  induction ds with
+  | nil =>
+    intro _ fuel st _ hst
+    have hst' : st.rest = rest := by simpa using hst
+    cases fuel with
+    | zero => exact ⟨st, [], by simp [mRep], hst', rfl⟩
+    | succ f => exact ⟨st, [], by simp [mRep], hst', rfl⟩
+  | cons d ds ih =>
+    intro hd fuel st hfuel hst
+    rw [allDigits_cons] at hd
+    cases fuel with
+    | zero => simp at hfuel
+    | succ f =>
+      have hst' : st.rest = d :: (ds ++ rest) := by simpa using hst
+      have hstep : digitCls.m st = [st.step (ds ++ rest)] := digitCls_m_cons st d _ hst' hd.1
+      obtain ⟨st', tl, hm, hr, hc⟩ := ih hd.2 f (st.step (ds ++ rest)) (by simpa using hfuel) rfl
+      refine ⟨st', tl, ?_, hr, hc⟩
+      have hlt : (st.step (ds ++ rest)).rest.length < st.rest.length := by
+        rw [hst']; simp [MSt.step]
+      simp only [mRep, hstep, List.filter_cons, List.filter_nil, hlt, decide_true, ↓reduceIte,
+        List.flatMap_cons, List.flatMap_nil, List.append_nil, List.length_cons]
+      simp [hm]
+
+/-! ### `re.match` on the three unbounded shapes -/
+
+theorem reMatch_stop_of_head (r : Re) (s : Str) (st' : MSt) (tl : List MSt)
+    (h : r.m { rest := s, start := true, caps := [] } = st' :: tl) :
+    (reMatch r s).map (·.stop) = some (s.length - st'.rest.length) := by
+  simp [reMatch, h]
+
+/-- `[0-9]+` -/
+theorem match_digitsPlus (ds rest : Str) (hne : ds ≠ []) (hd : allDigits ds = true)
+    (hrest : ∀ c, rest.head? = some c → isDigit c = false) :
+    (reMatch (.rep digitCls 1 none) (ds ++ rest)).map (·.stop) = some ds.length := by
+  have hlen : 1 ≤ ds.length := List.length_pos_iff.mpr hne
+  obtain ⟨st', tl, hm, hr, _⟩ := mRep_digits_head rest hrest ds hd (ds ++ rest).length 1
+    { rest := ds ++ rest, start := true, caps := [] } (by simp) hlen rfl
+  rw [reMatch_stop_of_head _ _ st' tl (by simpa [Re.m] using hm), hr]
+  simp
+
+/-- `[1-9][0-9]*` -/
+theorem match_posInt (c : Char) (ds rest : Str) (hc : isDigit c = true) (h0 : c ≠ '0')
+    (hd : allDigits ds = true) (hrest : ∀ c, rest.head? = some c → isDigit c = false) :
+    (reMatch (.seq posDigitCls (.rep digitCls 0 none)) (c :: ds ++ rest)).map (·.stop)
+      = some (c :: ds).length := by
+  have h1 := posDigitCls_m_cons { rest := c :: ds ++ rest, start := true, caps := [] } c (ds ++ rest)
+    rfl hc h0
+  obtain ⟨st', tl, hm, hr, _⟩ := mRep_digits_head rest hrest ds hd (ds ++ rest).length 0
+    (MSt.step { rest := c :: ds ++ rest, start := true, caps := [] } (ds ++ rest)) (by simp)
+    (by omega) rfl
+  have hm' : (Re.seq posDigitCls (.rep digitCls 0 none)).m
+      { rest := c :: ds ++ rest, start := true, caps := [] } = st' :: tl := by
+    simp only [Re.m] at h1 ⊢
+    rw [h1]
+    simpa [MSt.step] using hm
+  rw [reMatch_stop_of_head _ _ st' tl hm', hr]
+  simp only [List.length_cons, List.length_append, Option.some.injEq]
+  omega
+
+/-- `[1-9][0-9]{k}` on `c :: ds` with `ds.length = k`, whatever follows -/
+theorem match_posFixed (c : Char) (ds rest : Str) (hc : isDigit c = true) (h0 : c ≠ '0')
+    (hd : allDigits ds = true) :
+    (reMatch (.seq posDigitCls (.rep digitCls ds.length (some ds.length))) (c :: ds ++ rest)).map (·.stop)
+      = some (c :: ds).length := by
+  have h1 := posDigitCls_m_cons { rest := c :: ds ++ rest, start := true, caps := [] } c (ds ++ rest)
+    rfl hc h0
+  obtain ⟨st', tl, hm, hr, _⟩ := mRep_digits_exact rest ds hd (ds ++ rest).length
+    (MSt.step { rest := c :: ds ++ rest, start := true, caps := [] } (ds ++ rest)) (by simp) rfl
+  have hm' : (Re.seq posDigitCls (.rep digitCls ds.length (some ds.length))).m
+      { rest := c :: ds ++ rest, start := true, caps := [] } = st' :: tl := by
+    simp only [Re.m] at h1 ⊢
+    rw [h1]
+    simpa [MSt.step] using hm
+  rw [reMatch_stop_of_head _ _ st' tl hm', hr]
+  simp only [List.length_cons, List.length_append, Option.some.injEq]
+  omega
+
+/-! ### INC1 under `_incr_numeric` -/
+
+theorem get_inc1 (v : VInfo) : v.get "inc1".toList = .nat v.inc1 := rfl
+
+theorem incrNumeric_inc1_pos (fs : List Str) (old cur new : VInfo) (fl : IncrFlags)
+    (h1 : 1 ≤ cur.inc1) (h : incrNumeric fs old cur fl = .ok new) : 1 ≤ new.inc1 := by
+  obtain ⟨b, tg, pt, _, _, hnew⟩ := incrNumeric_ok fs old cur fl new h
+  subst hnew
+  rcases resetRolloverFields_get_cases fs old _ "inc1".toList with hk | ⟨init, hl, hi⟩
+  · rw [get_inc1, get_inc1] at hk
+    have := FV.nat.inj hk
+    rw [this]
+    show 1 ≤ cur.inc1 + _
+    omega
+  · have hinit : init = "1".toList := by
+      have : lookup "inc1".toList Gen.fieldInitialValues = some "1".toList := by decide
+      rw [this] at hl
+      exact (Option.some.inj hl).symm
+    subst hinit
+    rw [get_inc1] at hi
+    have := FV.nat.inj hi
+    rw [this]
+    decide
+
+/-! ### `cal_info` stays inside the recognised domains -/
+
+theorem isoWeeksInYear_range (y : Nat) : 52 ≤ isoWeeksInYear y ∧ isoWeeksInYear y ≤ 53 := by
+  rw [isoWeeksInYear_eq]; split <;> omega
+
+theorem weekday_lt (y m d : Nat) : weekday y m d < 7 := by
+  unfold weekday; omega
+
+theorem isoWeek_range_aux (w W Wp y : Nat) (hW : 52 ≤ W ∧ W ≤ 53) (hWp : 52 ≤ Wp ∧ Wp ≤ 53) :
+    1 ≤ (if w = 0 then (y - 1, Wp) else if W < w then (y + 1, 1) else (y, w)).2 ∧
+    (if w = 0 then (y - 1, Wp) else if W < w then (y + 1, 1) else (y, w)).2 ≤ 53 := by
+  by_cases h0 : w = 0
+  · rw [if_pos h0]; exact ⟨by show 1 ≤ Wp; omega, by show Wp ≤ 53; omega⟩
+  · rw [if_neg h0]
+    by_cases h1 : W < w
+    · rw [if_pos h1]; exact ⟨Nat.le_refl 1, by show 1 ≤ 53; omega⟩
+    · rw [if_neg h1]; exact ⟨by show 1 ≤ w; omega, by show w ≤ 53; omega⟩
+
+theorem calInfo_domains (y m d : Nat) (hv : validDate y m d = true) :
+    1 ≤ (calInfo y m d).month ∧ (calInfo y m d).month ≤ 12 ∧ 1 ≤ (calInfo y m d).dom ∧
+    (calInfo y m d).dom ≤ 31 ∧ 1 ≤ (calInfo y m d).doy ∧ (calInfo y m d).doy ≤ 366 ∧
+    1 ≤ (calInfo y m d).quarter ∧ (calInfo y m d).quarter ≤ 4 ∧ 1 ≤ (calInfo y m d).weekV ∧
+    (calInfo y m d).weekV ≤ 53 ∧ (calInfo y m d).weekW ≤ 53 ∧ (calInfo y m d).weekU ≤ 53 ∧
+    (calInfo y m d).yearY = y ∧ 1 ≤ y ∧ y ≤ 9999 := by
+  simp only [validDate, Bool.and_eq_true, decide_eq_true_eq, daysInMonth] at hv
+  obtain ⟨⟨⟨⟨⟨hy1, hy2⟩, hm1⟩, hm12⟩, hd1⟩, hd⟩ := hv
+  have hd := of_decide_eq_true hd
+  have hd31 := daysInMonthL_le (isLeap y) m
+  have ht := mdInvOK_all (isLeap y) m (by omega) d (by omega)
+  simp only [mdInvOK, decide_eq_true_eq] at ht
+  obtain ⟨_, hlen⟩ := ht hm1 hd1 hd
+  have hdoy : daysBeforeMonthL (isLeap y) m + d ≤ 366 := by
+    split at hlen <;> omega
+  have hwd := weekday_lt y m d
+  have hW := isoWeeksInYear_range y
+  have hWp := isoWeeksInYear_range (y - 1)
+  simp only [calInfo, quarterFromMonth, weekW, weekU, isoWeek, isoCal, dayOfYear]
+  refine ⟨hm1, hm12, hd1, by omega, by omega, hdoy, by omega, by omega, ?_, ?_, by omega, by omega,
+    trivial, hy1, hy2⟩
+  · exact (isoWeek_range_aux _ _ _ y hW hWp).1
+  · exact (isoWeek_range_aux _ _ _ y hW hWp).2
 
 end BV
